@@ -55,12 +55,18 @@ func (f *Nreconc) Call(s *slip.Scope, args slip.List, depth int) slip.Object {
 			list[i], list[max-i] = list[max-i], list[i]
 		}
 	}
+	// Limit the capacity so that append never writes into spare capacity
+	// another list might already be using.
+	list = list[:len(list):len(list)]
 	switch ta := args[1].(type) {
 	case nil:
 		// nothing to append
 	case slip.List:
 		list = append(list, ta...)
 	default:
+		if len(list) == 0 {
+			return ta
+		}
 		list = append(list, slip.Tail{Value: ta})
 	}
 	return list
